@@ -59,7 +59,7 @@ template<int F>
 static constexpr fseq<F,F+1,1> fix{};
 
 static constexpr fseq<0 ,1 ,1> ffirst;
-static constexpr fseq<-1,-1,1> flast;
+static constexpr fseq<-1,0,1> flast;
 //----------------------------------------------------------------------------------------------------------//
 
 
